@@ -25,6 +25,11 @@ DICT_OK = ("setitem", "delitem", "pop", "pop_default", "update_map", "update_pai
 def freshen(x):
     """Every node reference becomes a fresh node: the graph stays a tree."""
     if isinstance(x, dict):
+        if x.get("k") == "remove":
+            return x          # names an item that is in the list now
+        if "at" in x:
+            # (would re-insert an item that is in the list already)
+            x = {k: v for k, v in x.items() if k != "at"}
         if "n" in x and set(x) <= {"n", "t"}:
             d = {"fresh": 1}
             if "t" in x:
@@ -107,6 +112,7 @@ class Prop:
         nops = c.choice([4, 8, 12, 18, 24, 30])
         arity = c.choice([0, 3, 4, 4])
         remove_at = c.choice([None, None, None, c.randrange(nops + 1)])
+        eq_nodes = c.random() < 0.4
         ops = []
         while len(ops) < nops:
             x = r.random()
@@ -127,7 +133,8 @@ class Prop:
             op["o"] = 0 if r.random() < 0.35 else r.randrange(12)
             ops.append(op)
         return {"prop": ID, "seed": seed,
-                "config": {"steps": steps, "arity": arity, "remove_at": remove_at},
+                "config": {"steps": steps, "arity": arity, "remove_at": remove_at,
+                           "eq_nodes": eq_nodes},
                 "ops": ops}
 
     def execute(self, trace, env):
@@ -135,7 +142,9 @@ class Prop:
         from traits.observation import api as oapi
         cfg = trace["config"]
         self._pushed = False
-        world = G.World(env, 1)
+        # some runs use "value objects" (equality by key): a link can then be re-assigned
+        # a distinct object that compares equal to the one it replaces
+        world = G.World(env, 1, classes="EqNode" if cfg.get("eq_nodes") else "Node")
         world.lazy_enabled = False
         self._world = world
         routed = []
